@@ -232,7 +232,10 @@ PROPS = {
                  "(and success result iff ack) iff every callback approved before the time-out, otherwise exactly one error result and unchanged data; "
                  "each callback invoked exactly once per write with that write's message. A case whose early deliveries took longer than half the "
                  "time-out is discarded and counted. Window test: the deciding delivery is parked at the yield point between timer lookup and stop "
-                 "until the time-out's error result has been seen (all placements: callbacks x parked delivery x verdict). Non-trivial: >=2 writes "
+                 "until the time-out's error result has been seen (all placements: callbacks x parked delivery x verdict). Free-running: 20-120 writes "
+                 "delivered back to back on the bound peer's connection while 1-3 callbacks give their verdicts (drawn pattern of approve / deny / "
+                 "silent) at once on the goroutines the stack started for them, an unbound peer writes and unrelated peers disconnect; exactly one "
+                 "outcome per write, lock cycles diagnosed from two goroutine dumps. Non-trivial: >=2 writes "
                  "pending together or a verdict after / racing the time-out. Distinct by (callbacks, verdict rows, delivery order)."),
         "assumptions": ["real time: 25 ms approval time-out, event-driven waiting up to 1 s; slow-harness cases are discarded, never judged",
                         "pending writes are authorised when they arrive; the binding may change afterwards"],
@@ -240,6 +243,7 @@ PROPS = {
             {"name": "matrix", "run": "TestApprovalMatrix", "kind": "rapid", "checks": {Q: 1600, T: 48000}, "shards": {Q: 8, T: 16}, "shrinktime": "15s"},
             {"name": "staggered", "run": "TestStaggeredWrites", "kind": "rapid", "checks": {Q: 480, T: 24000}, "shards": {Q: 8, T: 16}, "shrinktime": "15s"},
             {"name": "window", "run": "TestApprovalVsTimeout", "kind": "plain"},
+            {"name": "concurrent", "run": "TestConcurrentWriters", "kind": "rapid", "checks": {Q: 96, T: 6400}, "shards": {Q: 8, T: 16}, "shrinktime": "5s"},
         ],
     },
     "C13": {
